@@ -35,7 +35,7 @@ SEEDS = {
  "C11-zero-middle-group": ("C11", "DECIMAL integer part: the `digits already written` flag is reassigned after every 9-digit group",
    "precision-scale >= 10 and an aligned all-zero 9-digit group below a non-zero more significant digit"),
  "C12-time2-two-digit-hours": ("C12", "TIME2 formatted by a hand-rolled formatter that emits exactly two hour digits",
-   "TIME(fsp) value with |hours| >= 100"),
+   "TIME(fsp) value with abs(hours) >= 100"),
  "C13-char255-prefix-len": ("C13", "cellLength STRING: 2-byte prefix for max >= 255 instead of > 255 (CellBytes unchanged)",
    "CHAR/BINARY column whose declared byte length is exactly 255"),
  "C14-large-uint32-as-int32": ("C14", "printJSONValueEntry: inlined uint32 in large containers printed through printJSONInt32",
@@ -54,6 +54,47 @@ SEEDS = {
    "an absent-flagged column that carries data"),
  "C20-appendquote-escapes": ("C20", "ColumnData.MarshalJSON: data pre-quoted with strconv.AppendQuote into a json.RawMessage",
    "column data containing a control byte other than \\b\\t\\n\\f\\r, 0x7f or invalid UTF-8 (Go escapes are not JSON escapes): Marshal fails"),
+ # ---- round b ----
+ "C01-autocommit-only-after-xid": ("C01", "parseEvents: `autocommit = true` moved out of the shared commit closure into the XID branch only",
+   "a transaction closed by a COMMIT (or ROLLBACK) query event followed directly by a standalone statement (DDL): it is buffered and later dropped"),
+ "C02-rollback-keeps-autocommit-false": ("C02", "parseEvents: ROLLBACK delivers the empty transaction through a new closure that does not restore autocommit",
+   "BEGIN..ROLLBACK followed, before the next BEGIN, by a unit logged outside a transaction"),
+ "C03-tranpos-stale-after-rotate": ("C03", "parseEvents: start label taken from a `tranPos` refreshed only at BEGIN and at the end of commit (ROTATE updates only pos)",
+   "a log rotation whose first following unit is autocommitted (no BEGIN)"),
+ "C04-position-writeback-only-on-success": ("C04", "Stream: SetBinlogPosition(pos) moved below the error check (position stored only when parseEvents returns nil)",
+   "an attempt that accepts >= 1 transaction and then ends with a handler / mapper / unsupported-event error, followed by another Stream call"),
+ "C05-event-wraps-driver-buffer": ("C05", "readBinlogEvent: private copy of the packet payload dropped (event wraps the driver's reused buffer)",
+   "a connection that reuses its read buffer and a reader that refills it while the parser or handler still holds the previous event: data race + changed event"),
+ "C06-failure-swallowed-when-cancelled": ("C06", "Stream: returns nil when parseEvents failed and ctx.Err()==Canceled",
+   "a handler / decode / lookup failure while the caller's context is already cancelled when parseEvents returns"),
+ "C07-deferred-writeback-zero-pos": ("C07", "Stream: position write-back turned into a defer registered before startDumpFromBinlogPosition",
+   "an attempt whose dump request (NoticeDump) fails, followed by another attempt: it requests file \"\" offset 0"),
+ "C08-tranevents-reslice-shared": ("C08", "parseEvents: commit resets the buffer with tranEvents[:0] instead of nil",
+   "a delivered transaction the handler still holds, followed by an autocommitted unit (DDL, rows outside BEGIN): Events[0] of the earlier transaction is overwritten"),
+ "C09-bit-celllength-multiple-of-8": ("C09", "cellLength BIT: (nbits+7)/8 replaced by int(metadata>>8)+1",
+   "a BIT column whose width is a multiple of 8 (metadata low byte 0)"),
+ "C10-set-mask-uint32": ("C10", "CellBytes STRING/real type SET: bitmask accumulated in uint32",
+   "a SET with more than 32 members and a value selecting members 33..64"),
+ "C11-decimal-fixed-29-byte-buffer": ("C11", "DECIMAL scratch copy in a fixed 29-byte array",
+   "(p,s) pairs whose binary form is 30 bytes (33 of the 1580 pairs, p = 64 or 65): slice bounds panic"),
+ "C12-time2-fsp5-negative-frac": ("C12", "TIME2 fraction complement constants rewritten as shifts, 1<<16 instead of 1<<24 for metadata 5",
+   "TIME(5) holding a negative value with a non-zero fraction"),
+ "C13-defensive-copy-nil-empty": ("C13", "getValuesFromRow/getIdentifiesFromRow: column.Data = append([]byte(nil), column.Data...)",
+   "a non-NULL zero-length string/binary value: delivered with Data == nil, like SQL NULL"),
+ "C14-varlen-fastpath-0x80": ("C14", "readVariableLength: single-byte fast path guarded by <= 0x80 instead of < 0x80",
+   "a JSON string whose byte length is a positive multiple of 128"),
+ "C15-lenenc-fc-shift": ("C15", "readLenEncInt 0xfc case: uint64(data[pos+2]<<8) (byte shift yields 0)",
+   "a column count or metadata block length >= 256"),
+ "C16-fde-version-first-nul": ("C16", "Format(): server version cut at the first NUL found anywhere in the rest of the body",
+   "a server version that fills the whole 50-byte field"),
+ "C17-rotate-skip-before-gate": ("C17", "parseEvents: the pre-format `skip fake ROTATE` step hoisted above the validity gate (IsRotate() reads byte 4 first)",
+   "a malformed packet as 1st/2nd packet of a dump that is shorter than 5 bytes or has byte 4 == 4"),
+ "C18-addgtid-shared-backing": ("C18", "AddGTID: per-SID copy made only when inserting/merging; otherwise the original []interval is shared and appended to",
+   "base set whose interval slice has cap > len (SID block decode / earlier merge), sequence beyond last.end+1, two AddGTID calls on the same base"),
+ "C19-sidblock-signed-end": ("C19", "NewMysql56GTIDSetFromSIDBlock: reads into signed fields, drops intervals with end <= start before end--",
+   "an interval that ends exactly at sequence 2^63-1"),
+ "C20-empty-nonstring-null": ("C20", "ColumnData.MarshalJSON: data null also when len(Data)==0 and the type is not a string type",
+   "a TEXT/BLOB/SET/BIT/GEOMETRY column with non-nil empty data"),
 }
 
 def parse_detect(path):
@@ -78,7 +119,7 @@ for sid, (prop, what, needs) in sorted(SEEDS.items()):
     if not os.path.isdir(d):
         continue
     det = parse_detect(os.path.join(d, "detect.log"))
-    conf = open(os.path.join(d, "confirm.log")).read() if os.path.exists(os.path.join(d, "confirm.log")) else ""
+    conf = open(os.path.join(d, "confirm.log"), errors="replace").read() if os.path.exists(os.path.join(d, "confirm.log")) else ""
     demo_files = []
     for root, _, files in os.walk(os.path.join(d, "demo")):
         for f in files:
